@@ -1,4 +1,5 @@
 from construct.lib.py3compat import *
+import copy
 import re
 import sys
 
@@ -117,8 +118,12 @@ class Container(dict):
 
     # this is required because otherwise copy.deepcopy() will
     # copy self and self.__dict__ separately for some reason
-    def __deepcopy__(self, _, /):
-        return self.__class__.copy(self)
+    def __deepcopy__(self, memo, /):
+        result = self.__class__()
+        memo[id(self)] = result
+        for k, v in dict.items(self):
+            dict.__setitem__(result, copy.deepcopy(k, memo), copy.deepcopy(v, memo))
+        return result
 
     def __dir__(self, /):
         """For auto completion of attributes based on container values."""
